@@ -10,11 +10,11 @@ PROPS["C02"] = {
         "a panic is attributed to (extractor, innermost function of github.com/google/osv-scalibr on the panic stack); known findings are excluded by that call site only",
     ],
     "engine": "rapid",
-    "technique": "structure-aware mutation of fixture corpora (rapid-drawn, shrinkable, replayable); Extract runs in a child process under recover, a deadline and an allocation watchdog, so that hangs and fatal runtime errors are attributed to their input and re-confirmed in a fresh process; containment checked by real scans",
+    "technique": "structure-aware mutation of fixture corpora (rapid-drawn, shrinkable, replayable) plus an enumerated sweep that deletes and duplicates every single line of every text fixture and archive metadata member; Extract runs in a child process under recover, a deadline and an allocation watchdog, so that hangs and fatal runtime errors are attributed to their input and re-confirmed in a fresh process; containment checked by real scans",
     "level_text": "Sampled exploration of the input space of each built-in extractor at fuzzing scale; every evaluation is decided by an oracle that needs no expected output (no panic, budget, containment).",
-    "level_note": "Memory is observed through allocation totals (polled every 150 ms, so a runaway allocation is stopped early), not peak RSS. Binary formats whose fixtures were emptied in this sandbox (Go binaries, rpm sqlite/ndb, vmlinuz) only get synthetic or truncated seeds. No coverage-guided native fuzzing leg: the thorough tier is 16 shards x 3000 rapid mutants per extractor. Known findings: panics and fatal errors are counted and skipped by call site; the quadratic YAML/TOML inputs are capped in the generator (repeat <= 64 copies, nesting <= 1000); os/rpm runs with a 300 ms parse timeout; dotnet/pe and os/macapps cases get a 3 s deadline while their overrun class is listed.",
+    "level_note": "Memory is observed through allocation totals (polled every 150 ms, so a runaway allocation is stopped early), not peak RSS. Binary formats whose fixtures were emptied in this sandbox (Go binaries, rpm sqlite/ndb, vmlinuz) only get synthetic or truncated seeds. No coverage-guided native fuzzing leg: the thorough tier is 16 shards x 3000 rapid mutants per extractor. The line sweep (leg TestC02_linesweep, class 'linesweep') visits up to 160 (quick) / 1200 (thorough) lines per fixture or archive member, the first half of the budget from the top. Known findings: panics and fatal errors are counted and skipped by call site; the quadratic YAML/TOML inputs are capped in the generator (repeat <= 64 copies, nesting <= 1000); os/rpm runs with a 300 ms parse timeout; dotnet/pe and os/macapps cases get a 3 s deadline while their overrun class is listed.",
     "legs": [
-        {"fam": "fuzzfam", "run": "^TestC02_mutants$"},
+        {"fam": "fuzzfam", "run": "^TestC02_(linesweep|mutants)$"},
     ],
     "timeout": {"quick": 900, "thorough": 3000},
 }
